@@ -11,6 +11,7 @@ import (
 	"io"
 	"math/rand"
 	"net"
+	"strconv"
 	"strings"
 	"sync"
 	"time"
@@ -63,7 +64,7 @@ func (c16) Workers() int  { return 64 }
 // stanza decoder); the driver then finds the case among the ones in flight.
 func (c16) Journal() bool { return true }
 func (c16) Rule() string {
-	return "digest-seq cases: Component.handshake called 2-4 times on the SAME Component value with different (and repeated, empty) ids; reconnect cases: the SAME Component connects 2-4 times in a row (Connect/Resume) to the scripted server, a fresh escaped/non-ASCII/empty/1 kB stream id per connection, sessions ended by a TCP drop, a server-side stream close or Disconnect, optionally one refused handshake in between - the digest of every connection is compared; digest cases: random (id, secret) byte strings through Component.handshake (lengths 0..1100 incl. every SHA-1 padding boundary, XML-special, non-ASCII, NUL/0xff bytes); connect cases: Component.Connect against a scripted TCP server, id sent XML-escaped in the stream header (entities, numeric references, either quote, missing attribute, 1 kB), every reply kind (handshake forms, 25 stream-error conditions, 12 other packet kinds incl. a stanza whose delegation/forwarded payload is nested 3 to 300 000 levels deep, unknown/malformed/closed), transport failures and a failing handshake write; distinct = distinct (kind, total length mod 64, block count, id class, header, pre, reply); non-trivial = digest of a non-empty input, a connect case that reaches the reply, or a sequence of at least two handshakes"
+	return "digest-seq cases: Component.handshake called 2-4 times on the SAME Component value with different (and repeated, empty) ids; reconnect cases: the SAME Component connects 2-4 times in a row (Connect/Resume) to the scripted server, a fresh escaped/non-ASCII/empty/1 kB stream id per connection, sessions ended by a TCP drop, a server-side stream close or Disconnect, optionally one refused handshake in between - the digest of every connection is compared; digest cases: random (id, secret) byte strings through Component.handshake (lengths 0..1100 incl. every SHA-1 padding boundary, XML-special, non-ASCII, NUL/0xff bytes); connect cases: Component.Connect against a scripted TCP server, id sent XML-escaped in the stream header (entities, numeric references, either quote, missing attribute, 1 kB; random attribute layouts with namespace-qualified look-alikes xml:id / x:id / y:id before, after and on both sides of the unqualified id, prefix declarations before or after their use, id first / last / in the middle of many attributes), every reply kind (handshake forms, 25 stream-error conditions, 12 other packet kinds incl. a stanza whose delegation/forwarded payload is nested 3 to 300 000 levels deep, unknown/malformed/closed), transport failures and a failing handshake write; distinct = distinct (kind, total length mod 64, block count, id class, header, pre, reply); non-trivial = digest of a non-empty input, a connect case that reaches the reply, or a sequence of at least two handshakes"
 }
 
 // ---------------------------------------------------------------- replies
@@ -369,16 +370,41 @@ func (c16) Gen(r *rand.Rand, tier string) []interface{} {
 	conn(c16In{ID: []byte{}, Wire: "", Secret: []byte{}, Reply: "handshake"})
 	conn(c16In{ID: []byte("A&<\"'"), Wire: "&#x41;&amp;&lt;&quot;&apos;", Secret: []byte("s"), Reply: "handshake"})
 	conn(c16In{ID: []byte("real"), Wire: "real", Hdr: "nsid", Secret: []byte("s"), Reply: "handshake"})
+	// qualified look-alikes of the id attribute at every position relative to the unqualified
+	// one (before, after, both sides; xml:id, x:id with its declaration before or after, several),
+	// and look-alike-free headers with the id first / last / in the middle of many attributes
+	for _, lay := range []string{
+		"ns,st,from,xmlid,id", "ns,st,from,id,xmlid", "xmlid,ns,st,id,from", "ns,st,to,xmlid,idq",
+		"ns,st,xdecl,xid,id", "ns,st,xid,id,xdecl", "ns,st,id,xdecl,xid", "ns,st,id,xid,xdecl", "xid,xdecl,ns,st,from,idq",
+		"ns,st,xmlid,id,xid,xdecl", "ns,st,xdecl,xid,id,xmlid", "ydecl,yid,xmlid,ns,st,xid,xdecl,from,id", "ns,st,id,yid,xmlid,xid,xdecl,ydecl",
+		"yid,ydecl,ns,st,id", "ns,st,id,ydecl,yid", "xmlid,idq,yid,ydecl,ns,st",
+		"id,ns,st,from,to,ver,lang,a1,a2", "ns,st,from,to,ver,lang,a1,a2,id", "ns,st,from,to,id,ver,lang,a1,a2", "a2,a1,idq,ns,st", "st,ns,a1,idq",
+		"ns,st,xmlid,from", "ns,st,from,xid,xdecl,yid,ydecl", "ns,st,from,to,ver,lang,a1,a2,a3,xdecl",
+	} {
+		in := c16In{Hdr: "lay:" + lay, Secret: []byte("mypass"), Reply: "handshake"}
+		if strings.Contains(","+lay+",", ",id,") || strings.Contains(","+lay+",", ",idq,") {
+			in.ID, in.Wire = []byte("s7r3am&<id>"), "s7r3am&amp;&lt;id&gt;"
+		} else {
+			in.ID = []byte{}
+		}
+		conn(in)
+	}
 	for i := 0; i < nc; i++ {
 		in := c16In{Secret: c16GenSecret(r)}
 		id := c16GenID(r, true)
-		in.Hdr = []string{"std", "std", "std", "dq", "idfirst", "noid", "nsid"}[r.Intn(7)]
+		in.Hdr = []string{"std", "std", "lay", "dq", "idfirst", "noid", "nsid", "lay", "lay"}[r.Intn(9)]
 		q := '\''
 		if in.Hdr == "dq" {
 			q = '"'
 		}
 		if in.Hdr == "noid" {
 			id = []byte{}
+		}
+		if in.Hdr == "lay" {
+			var has bool
+			if in.Hdr, q, has = c16GenLayout(r); !has {
+				id = []byte{}
+			}
 		}
 		in.ID = id
 		in.Wire = c16Escape(r, string(id), q)
@@ -436,6 +462,12 @@ func (c16) Gen(r *rand.Rand, tier string) []interface{} {
 		if hdr == "noid" {
 			id = ""
 		}
+		if hdr == "lay" {
+			var has bool
+			if hdr, q, has = c16GenLayout(r); !has {
+				id = ""
+			}
+		}
 		return c16Sess{ID: []byte(id), Hdr: hdr, Wire: c16Escape(r, id, q), Reply: reply, End: end, Resume: resume}
 	}
 	for _, e := range ends { // the seeded-change demonstration's history, once per way of ending a session
@@ -463,7 +495,7 @@ func (c16) Gen(r *rand.Rand, tier string) []interface{} {
 			if k == failAt {
 				reply = badReplies[r.Intn(len(badReplies))]
 			}
-			hdr := []string{"std", "std", "dq", "idfirst", "noid", "nsid"}[r.Intn(6)]
+			hdr := []string{"std", "lay", "dq", "idfirst", "noid", "nsid", "lay"}[r.Intn(7)]
 			in.Sessions = append(in.Sessions, sess(string(c16GenID(r, true)), hdr, reply, ends[r.Intn(3)], k > 0 && r.Intn(3) > 0))
 		}
 		out = append(out, in)
@@ -499,8 +531,148 @@ var c16BadHeaders = []c16BadHeader{
 	{"stream-error-first", "<?xml version='1.0'?><stream:error xmlns:stream='" + c16NSStream + "'><host-unknown xmlns='" + nsStreams + "'/></stream:error>"},
 }
 
+// Header layouts ("lay:" + comma-separated tokens, in the order the attributes are written):
+//
+//	ns st from to ver lang   xmlns, xmlns:stream, from, to, version, xml:lang
+//	id / idq                 the stream id, unqualified, in single / double quotes
+//	xmlid                    xml:id='look-alike-xml'
+//	xid yid                  x:id='look-alike-x', y:id='' (need xdecl / ydecl somewhere in the tag)
+//	xdecl ydecl              xmlns:x='urn:example:x', xmlns:y='urn:example:y'
+//	a1 a2 a3                 other attributes (x:lang needs xdecl; idx, ID: names that merely resemble id)
+//
+// Attribute order is not significant in XML: whatever the layout, the stream id is the value
+// of the unqualified id attribute ("" when there is none).
+var c16LayTokens = map[string]string{
+	"ns": "xmlns='jabber:component:accept'", "st": "xmlns:stream='" + c16NSStream + "'", "from": "from='comp.localhost'",
+	"to": "to='comp.localhost'", "ver": "version='1.0'", "lang": "xml:lang='en'",
+	"xmlid": "xml:id='look-alike-xml'", "xid": "x:id='look-alike-x'", "yid": "y:id=''",
+	"xdecl": "xmlns:x='urn:example:x'", "ydecl": "xmlns:y='urn:example:y'",
+	"a1": "idx='7'", "a2": "ID='upper-case-is-another-name'", "a3": "x:lang='en'",
+}
+
+// the values of the qualified look-alikes, for the oracle's diagnosis
+var c16LookAlikes = []string{"look-alike-xml", "look-alike-x", "not-the-stream-id"}
+
+func c16LayHeader(spec, wire string) string {
+	var b strings.Builder
+	b.WriteString("<stream:stream")
+	for _, t := range strings.Split(spec, ",") {
+		switch t {
+		case "id":
+			b.WriteString(" id='" + wire + "'")
+		case "idq":
+			b.WriteString(" id=\"" + wire + "\"")
+		default:
+			if a, ok := c16LayTokens[t]; ok {
+				b.WriteString(" " + a)
+			}
+		}
+	}
+	b.WriteString(">")
+	return b.String()
+}
+
+func c16HdrClass(hdr string) string {
+	if strings.HasPrefix(hdr, "lay:") {
+		return "layout:" + c16LayClass(strings.TrimPrefix(hdr, "lay:"))
+	}
+	return hdr
+}
+
+// c16LayClass: where the qualified look-alikes stand relative to the unqualified id
+func c16LayClass(spec string) string {
+	toks := strings.Split(spec, ",")
+	idAt, before, after := -1, false, false
+	for i, t := range toks {
+		if t == "id" || t == "idq" {
+			idAt = i
+		}
+	}
+	for i, t := range toks {
+		if t == "xmlid" || t == "xid" || t == "yid" {
+			if idAt < 0 || i < idAt {
+				before = true
+			} else {
+				after = true
+			}
+		}
+	}
+	switch {
+	case idAt < 0 && before:
+		return "lookalike-only"
+	case idAt < 0:
+		return "no-id"
+	case before && after:
+		return "lookalike-both-sides"
+	case before:
+		return "lookalike-before-id"
+	case after:
+		return "lookalike-after-id"
+	case idAt == 0:
+		return "id-first-of-many"
+	case idAt == len(toks)-1:
+		return "id-last-of-many"
+	}
+	return "id-in-the-middle"
+}
+
+// c16GenLayout draws a layout; quote reports the delimiter of the id attribute, hasID whether there is one.
+func c16GenLayout(r *rand.Rand) (spec string, quote rune, hasID bool) {
+	toks := []string{"ns", "st"}
+	for _, t := range []string{"from", "to", "ver", "lang", "a1", "a2"} {
+		if r.Intn(2) == 0 {
+			toks = append(toks, t)
+		}
+	}
+	quote, hasID = '\'', r.Intn(12) != 0
+	if hasID {
+		if r.Intn(3) == 0 {
+			toks, quote = append(toks, "idq"), '"'
+		} else {
+			toks = append(toks, "id")
+		}
+	}
+	x, y := false, false
+	for n := r.Intn(4); n > 0; n-- { // 0-3 qualified look-alikes, no attribute twice
+		switch r.Intn(3) {
+		case 0:
+			toks = append(toks, "xmlid")
+		case 1:
+			if !x {
+				toks, x = append(toks, "xid"), true
+			}
+		default:
+			if !y {
+				toks, y = append(toks, "yid"), true
+			}
+		}
+	}
+	if x && r.Intn(2) == 0 {
+		toks = append(toks, "a3")
+	}
+	if x {
+		toks = append(toks, "xdecl")
+	}
+	if y {
+		toks = append(toks, "ydecl")
+	}
+	seen := map[string]bool{}
+	var uniq []string
+	for _, t := range toks {
+		if !seen[t] {
+			seen[t] = true
+			uniq = append(uniq, t)
+		}
+	}
+	r.Shuffle(len(uniq), func(i, j int) { uniq[i], uniq[j] = uniq[j], uniq[i] })
+	return "lay:" + strings.Join(uniq, ","), quote, hasID
+}
+
 func c16Header(in c16In) (prolog, rest string) {
 	prolog = "<?xml version='1.0'?>"
+	if strings.HasPrefix(in.Hdr, "lay:") {
+		return prolog, c16LayHeader(strings.TrimPrefix(in.Hdr, "lay:"), in.Wire)
+	}
 	common := "xmlns='jabber:component:accept' xmlns:stream='" + c16NSStream + "' from='comp.localhost'"
 	switch in.Hdr {
 	case "noid":
@@ -1157,7 +1329,16 @@ func (c16) Oracle(inp interface{}, obs Sx) (string, string) {
 					if got == hex.EncodeToString(sum[:]) {
 						return fmt.Sprintf("handshake %d of the same Component (stream id %q): digest %s is SHA-1 over the ids and secrets of ALL %d handshakes so far, not hex(SHA-1(id ++ secret)) of the current stream id", k+1, s.ID, got, k+1), "digest-depends-on-earlier-connections"
 					}
+					if in.Kind == "reconnect" {
+						sin := c16In{ID: s.ID, Secret: in.Secret, Hdr: s.Hdr, Wire: s.Wire}
+						if m2, s2 := c16HeaderDiagnosis(sin, got, msg, sig); s2 != sig {
+							return fmt.Sprintf("connection %d of the same Component: %s", k+1, m2), s2
+						}
+					}
 					return fmt.Sprintf("handshake %d of the same Component: %s", k+1, msg), "digest-mismatch-on-reconnect"
+				}
+				if in.Kind == "reconnect" {
+					msg, sig = c16HeaderDiagnosis(c16In{ID: s.ID, Secret: in.Secret, Hdr: s.Hdr, Wire: s.Wire}, got, msg, sig)
 				}
 				return fmt.Sprintf("handshake %d of the same Component: %s", k+1, msg), sig
 			}
@@ -1186,11 +1367,7 @@ func (c16) Oracle(inp interface{}, obs Sx) (string, string) {
 	}
 	if len(text.L) == 1 {
 		if msg, sig := c16DigestOracle(string(bytesOf(text.L[0])), in.ID, in.Secret); msg != "" {
-			if in.Hdr == "nsid" && sig == "digest-mismatch" {
-				sig = "digest-uses-foreign-id-attribute"
-				msg = "stream header carries id='" + in.Wire + "' and x:id='not-the-stream-id' (another namespace); " + msg
-			}
-			return msg, sig
+			return c16HeaderDiagnosis(in, string(bytesOf(text.L[0])), msg, sig)
 		}
 	}
 	if !expectOK {
@@ -1203,6 +1380,28 @@ func (c16) Oracle(inp interface{}, obs Sx) (string, string) {
 		}
 	}
 	return c16OutcomeOracle(expectOK, errCode, state, handled, in.Reply+" (pre "+in.Pre+")")
+}
+
+// c16HeaderDiagnosis names what was hashed instead of the stream id when the digest is wrong
+// and the stream header carried qualified look-alikes of the id attribute.
+func c16HeaderDiagnosis(in c16In, got, msg, sig string) (string, string) {
+	if sig != "digest-mismatch" {
+		return msg, sig
+	}
+	_, hdr := c16Header(in)
+	is := func(v string) bool {
+		sum := sha1.Sum(append([]byte(v), in.Secret...))
+		return got == hex.EncodeToString(sum[:])
+	}
+	for _, v := range c16LookAlikes {
+		if strings.Contains(hdr, "'"+v+"'") && is(v) {
+			return "the digest is SHA-1(" + strconv.Quote(v) + " ++ secret): the value of a namespace-qualified id attribute was taken for the stream id; stream header " + hdr, "digest-uses-foreign-id-attribute"
+		}
+	}
+	if len(in.ID) > 0 && is("") {
+		return "the digest is SHA-1(\"\" ++ secret): the unqualified id attribute of the stream header was not read; stream header " + hdr, "stream-id-not-read"
+	}
+	return msg + "; stream header " + hdr, sig
 }
 
 // the second sentence of the property, on one connection's observation
@@ -1267,7 +1466,7 @@ func (c16) Key(inp interface{}) (string, bool) {
 					hist("reconnect:session-fails-" + rk)
 				}
 				hist("reconnect:end-" + s.End)
-				hist("reconnect:hdr-" + s.Hdr)
+				hist("reconnect:hdr-" + c16HdrClass(s.Hdr))
 				if s.Resume {
 					hist("reconnect:via-Resume")
 				} else {
@@ -1282,7 +1481,7 @@ func (c16) Key(inp interface{}) (string, bool) {
 		return b.String(), len(in.Sessions) >= 2
 	}
 	hist("connect:pre-" + strings.SplitN(in.Pre, ":", 2)[0])
-	hist("connect:hdr-" + in.Hdr)
+	hist("connect:hdr-" + c16HdrClass(in.Hdr))
 	hist("connect:id-" + cls)
 	rk := in.Reply
 	if i := strings.Index(rk, ":"); i >= 0 && strings.HasPrefix(rk, "stream-error") {
